@@ -335,7 +335,7 @@ def main(prop, tier):
         res = run_many(exe, cfgs)
         broken = [(c, rc, o) for c, (rc, o) in zip(cfgs, res) if rc != 0]
         if broken:
-            raise Broken("chan_conc exited abnormally (rc=%s) on %s: %s" % (broken[0][1], broken[0][0], broken[0][2][-500:]))
+            crash_or_broken(broken[0][1], broken[0][2], "chan_conc", "chan_conc on " + open(broken[0][0]).read().replace("\n", "; ")[:400])
         tlc_res = [f.result() for f in f_t]
         wres = f_w.result()
         f_ap.result()
@@ -405,7 +405,7 @@ def main(prop, tier):
     res = run_many(rt_exe, rt_cfgs, timeout=120)
     brk = [(c, rc, o) for c, (rc, o) in zip(rt_cfgs, res) if rc != 0]
     if brk:
-        raise Broken("chan_rt exited abnormally (rc=%s) on %s: %s" % (brk[0][1], brk[0][0], brk[0][2][-500:]))
+        crash_or_broken(brk[0][1], brk[0][2], "chan_rt", "chan_rt (real threads) on " + open(brk[0][0]).read().replace("\n", "; ")[:400])
     rtall = os.path.join(bdir, "rt_all.ndjson")
     rtidx = concat(rt_traces, rtall)
     v4 = judge(chk, rtall, rtidx, rt_cfgs, bdir, "real-thread (platform.c)")
@@ -426,7 +426,7 @@ def main(prop, tier):
         try:
             r = json.loads(out.strip().splitlines()[-1])
         except Exception:
-            raise Broken("explore harness failed (rc=%s): %s" % (rc, out[-800:]))
+            crash_or_broken(rc, out, "chan_seq_explore", "chan_seq exploration (cap=%d readers=%d)" % (cap, nr))
         seq_traces += [pre + ".%04d.ndjson" % i for i in range(r["chunks"])]
     probes = 0
     for t in seq_traces:
